@@ -1,6 +1,7 @@
 package rules
 
 import (
+	"go/types"
 	"go/token"
 	"strings"
 
@@ -159,4 +160,145 @@ func c31(x *Ctx) {
 		}
 	}
 	c.Min(r3, 1)
+
+	// ---- "recorded or consulted": a late-span lookup refreshes the entry's recency ------------------------
+	const r4 = "C31.lookup-refreshes-recency"
+	isLRU := func(in ssa.Instruction, m string) bool {
+		cl, ok := in.(ssa.CallInstruction)
+		return ok && strings.HasPrefix(eng.CalleeName(cl), "(*github.com/hashicorp/golang-lru/v2.Cache") && strings.HasSuffix(eng.CalleeName(cl), "."+m)
+	}
+	for _, name := range []string{"CheckSpan", "CheckTrace"} {
+		f := x.Fn(r4, "collect/cache", "cuckooSentCache", name)
+		if f == nil {
+			continue
+		}
+		gets, silent := 0, 0
+		eng.Instrs(f, func(in ssa.Instruction) {
+			if isLRU(in, "Get") {
+				gets++
+			}
+			if isLRU(in, "Peek") || isLRU(in, "Contains") || isLRU(in, "ContainsOrAdd") {
+				silent++
+			}
+		})
+		c.Examined++
+		c.Decide(gets >= 1 && silent == 0, r4, name, x.PosOf(f.Pos()), "the kept LRU is read with Get, which marks the entry as recently used",
+			"the kept decision is looked up without refreshing its recency (Peek/Contains instead of Get): a trace whose late spans keep arriving is evicted as if it had not been consulted, and the next late span starts a new decision")
+	}
+	c.Min(r4, 2)
+
+	// ---- kept reasons are indices into one table that lives as long as the entries ------------------------------
+	const r5 = "C31.reason-table-stable"
+	krF := eng.FieldIs("collect/cache", "cuckooSentCache", "keptReasons")
+	nW := 0
+	for _, w := range eng.FieldWrites(x.PkgFuncs("collect/cache"), krF) {
+		nW++
+		_, base, _ := eng.FieldRefOf(w.Instr.(*ssa.Store).Addr)
+		_, fresh := base.(*ssa.Alloc)
+		c.Decide(fresh, r5, BaseName(w.Fn)+"/keptReasons", x.Pos(w.Instr), "set once while the cache is constructed",
+			"the kept-reasons table is replaced on a live cache while the kept entries (carried over on resize) still hold indices into the old table: surviving decisions answer with an empty or a wrong reason")
+	}
+	if nW == 0 {
+		c.Undecided(r5, "keptReasons", "collect/cache/cuckooSentCache.go", "no store to the reasons table found")
+	}
+
+	// ---- every queued dropped ID reaches both filter generations --------------------------------------------
+	const r6 = "C31.drain-inserts-both"
+	if dr := x.Fn(r6, "collect/cache", "CuckooTraceChecker", "drain"); dr != nil {
+		curF := eng.FieldIs("collect/cache", "CuckooTraceChecker", "current")
+		futF := eng.FieldIs("collect/cache", "CuckooTraceChecker", "future")
+		addch := eng.FieldIs("collect/cache", "CuckooTraceChecker", "addch")
+		insertInto := func(in ssa.Instruction, fld func(eng.FieldRef) bool) bool {
+			cl, ok := in.(ssa.CallInstruction)
+			if !ok || !strings.HasSuffix(eng.CalleeName(cl), ".Insert") {
+				return false
+			}
+			rv := eng.Receiver(cl)
+			return rv != nil && loadsField(rv, fld)
+		}
+		// the receive of an ID: a select state (or plain receive) on addch
+		var recv ssa.Instruction
+		var okVals []ssa.Value
+		var sel *ssa.Select
+		selIdx := -1
+		eng.Instrs(dr, func(in ssa.Instruction) {
+			if s, ok := in.(*ssa.Select); ok {
+				for i, st := range s.States {
+					if st.Dir == types.RecvOnly && loadsField(st.Chan, addch) {
+						recv, sel, selIdx = in, s, i
+					}
+				}
+			}
+		})
+		if recv == nil {
+			c.Undecided(r6, "drain", x.PosOf(dr.Pos()), "cannot find where queued IDs are received")
+		} else {
+			// assume this select case fired with ok = true, and future exists
+			for _, ref := range *sel.Referrers() {
+				if e, ok := ref.(*ssa.Extract); ok && e.Index == 1 {
+					okVals = append(okVals, e)
+				}
+			}
+			var tgtFld func(eng.FieldRef) bool
+			as := &eng.Assume{Bool: func(v ssa.Value) eng.Tri {
+				// the ID is not yet in the generation under consideration (skipping a duplicate is harmless)
+				if cl, ok := v.(*ssa.Call); ok && strings.HasSuffix(eng.CalleeName(cl), ".Lookup") {
+					if rv := eng.Receiver(cl); rv != nil && tgtFld != nil && loadsField(rv, tgtFld) {
+						return eng.False
+					}
+				}
+				for _, o := range okVals {
+					if v == o {
+						return eng.True
+					}
+				}
+				if b, ok := v.(*ssa.BinOp); ok && b.Op == token.EQL {
+					if e, ok := b.X.(*ssa.Extract); ok && e.Tuple == ssa.Value(sel) && e.Index == 0 {
+						if k, ok := eng.ConstInt(b.Y); ok {
+							return triOf(int(k) == selIdx)
+						}
+					}
+				}
+				return eng.Unknown
+			}, Nil: func(v ssa.Value) eng.Tri {
+				if loadsField(v, futF) {
+					return eng.False
+				}
+				return eng.Unknown
+			}}
+			h := loopHeader(recv)
+			for _, tgt := range []struct {
+				name string
+				fld  func(eng.FieldRef) bool
+			}{{"current", curF}, {"future", futF}} {
+				c.Examined++
+				tgtFld = tgt.fld
+				r := eng.Explore(eng.Query{Fn: dr, Assume: as, Start: recv, Classify: func(in ssa.Instruction, _ eng.Facts) eng.Event {
+					if insertInto(in, tgt.fld) {
+						return eng.EvKill
+					}
+					if h != nil && in == h.Instrs[0] {
+						return eng.EvSink
+					}
+					return eng.EvNone
+				}})
+				bad := len(r.Hits) > 0
+				for _, e := range r.Exits {
+					if _, ok := e.Instr.(*ssa.Return); ok {
+						bad = true
+					}
+				}
+				c.Decide(!bad, r6, "drain/"+tgt.name, x.Pos(recv), "a received ID is inserted into the "+tgt.name+" filter on every path",
+					"an ID taken from the add queue can skip the insert into the "+tgt.name+" filter generation: when the generations rotate the dropped decision is forgotten although the filter has not been filled since it was recorded")
+			}
+		}
+	}
+	c.Min(r6, 2)
+}
+
+func triOf(b bool) eng.Tri {
+	if b {
+		return eng.True
+	}
+	return eng.False
 }
